@@ -378,13 +378,26 @@ class C16(Check):
         return evals, findings
 
     def replay(self, data):
+        """input-level replays and correspondence samples of kind `static` carry {cwd, root, filename, method,
+        ims}; samples of the path functions carry {kind, path}; proof replays carry no input"""
+        i = data.get('input')
+        if not isinstance(i, dict):
+            return dict(note='no input in this replay file (proof obligation): see "theorem" / "build_log" in it')
+        out = dict(input=i)
+        if data.get('line'):
+            out.update(line=data['line'], recorded_impl=data.get('observed_impl'), recorded_model=data.get('observed_model'))
+        if 'filename' not in i:
+            parts = str(i.get('path', '')).split(' | ')
+            out['os_path_now'] = dict(normpath=os.path.normpath(parts[-1]), join=os.path.join(*parts),
+                                      strip=parts[-1].strip('/\\'))
+            return out
         self._setup()
         try:
-            i = data['input']
             status, rec, body, cwd = self._static(i['cwd'], self._sub(i['root']), self._sub(i['filename']),
                                                   i['method'], i['ims'])
-            return dict(input=i, tree_top=self.top, status=status, opened=rec.opened, stat=rec.touched,
-                        body=None if body is None else body[:60].decode('latin1'),
-                        oracle=self._oracle(i['cwd'], i['root'], i['filename'], i['method'], i['ims']))
+            out.update(tree_top=self.top, cwd=cwd, status=status, opened=rec.opened, stat=rec.touched,
+                       probed=rec.probed_paths, body=None if body is None else body[:60].decode('latin1'),
+                       oracle=self._oracle(i['cwd'], i['root'], i['filename'], i['method'], i['ims']))
+            return out
         finally:
             self._teardown()
